@@ -7,3 +7,8 @@ import X86Model.Properties.C05
 import X86Model.Model.Entry
 import X86Model.Spec.PageEntry
 import X86Model.Properties.C08
+import X86Model.Model.BitField
+import X86Model.Model.Tss
+import X86Model.Model.Gdt
+import X86Model.Spec.Descriptor
+import X86Model.Properties.C15
